@@ -2,8 +2,10 @@
 //! the monitors of one property. Links no walrus code.
 
 mod basic;
+mod cfgjudge;
 mod exec;
 mod gcjudge;
+mod mapjudge;
 mod report;
 mod structural;
 
@@ -114,6 +116,9 @@ fn main() {
                 "C20" => basic::c20(c, &mut rep),
                 "C03" | "C04" => structural::run(c, &mut rep, &prop),
                 "C01" => exec::c01(c, &mut rep, seed),
+                "C14" => cfgjudge::run(c, &mut rep),
+                "C19" => mapjudge::c19(c, &mut rep),
+                "C13" => mapjudge::c13(c, &mut rep),
                 "C06" | "C07" => gcjudge::run(c, &mut rep, &prop, seed),
                 _ => rep.harness_error(&format!("no judge for {}", prop)),
             }
